@@ -44,6 +44,9 @@ def unmarshaller(
     if not nodes:
         return routines.NoOpUnmarshaller(t=t, context=context, var=None)  # type: ignore[arg-type]
 
+    # The graph leaves out members with nothing to resolve (`typing.Any`, un-bound
+    #   type-vars...), but the routines of their containers still look them up.
+    context[tp.Any] = routines.NoOpUnmarshaller(t=tp.Any, context=context, var=None)  # type: ignore[arg-type]
     # "root" type will always be the final node in the sequence.
     root = nodes[-1]
     for node in nodes:
